@@ -228,8 +228,8 @@ def touched_alphabets(steps: List[dict]) -> List[frozenset]:
     for st in steps:
         if st["op"] == "validate":
             out.append(default_alphabet(st["re"]))
-        elif st["op"] == "compile":
-            out.append(frozenset(st["input_symbols"]) if st["input_symbols"] is not None else default_alphabet(st["re"]))
+        elif st["input_symbols"] is None:
+            out.append(default_alphabet(st["re"]))
         else:
             out.append(frozenset(st["input_symbols"]))
     return out
@@ -240,11 +240,14 @@ class Skip(Exception):
     """The oracle cannot judge this program within its budget."""
 
 
-def judge_steps(steps: List[dict], language: Optional[Callable] = None) -> List[Tuple[int, str, dict]]:
+def judge_steps(steps: List[dict], language: Optional[Callable] = None,
+                extra_ops: Optional[Dict[str, Callable]] = None) -> List[Tuple[int, str, dict]]:
     """Execute the steps in order through the REAL library and judge each one by its own oracle.
     Returns [(step index, what is wrong, details)] — empty when every step is right.
     `language(nfa, ast, sorted_sigma)` → None | (word, denoted?) judges compiled NFAs (C10); without it a
-    compile step is judged on success / error type only (C11)."""
+    compile step is judged on success / error type only (C11).  A compile step with valid=None is judged on
+    its language only (if it compiles and carries an AST).  `extra_ops[op](step)` executes further, unjudged
+    kinds of steps (calls a check makes besides the API, recorded so that a history can be replayed)."""
     import automata.base.exceptions as exceptions
     from automata.fa.nfa import NFA
     from automata.regex import regex as rx
@@ -276,13 +279,14 @@ def judge_steps(steps: List[dict], language: Optional[Callable] = None) -> List[
                 raise
             except Exception as ex:  # noqa: BLE001
                 got = ("err", type(ex).__name__, isinstance(ex, exceptions.RegexException))
-            if st["valid"] and got[0] != "ok":
+            valid = st.get("valid")
+            if valid is True and got[0] != "ok":
                 bad.append((i, f"{call_txt} raises {got[1]} on an expression of the grammar", dict(got=got[1])))
-            elif not st["valid"] and got[0] == "ok":
+            elif valid is False and got[0] == "ok":
                 bad.append((i, f"{call_txt} compiles a string outside the grammar", dict(got="ok")))
-            elif not st["valid"] and not got[2]:
+            elif valid is False and not got[2]:
                 bad.append((i, f"{call_txt} raises {got[1]}, not a RegexException", dict(got=got[1])))
-            elif st["valid"] and language is not None and st.get("ast") is not None:
+            elif valid is not False and got[0] == "ok" and language is not None and st.get("ast") is not None:
                 e = to_ast(st["ast"])
                 eff = sorted(nfa.input_symbols)
                 verdict = language(nfa, e, eff)
@@ -290,6 +294,8 @@ def judge_steps(steps: List[dict], language: Optional[Callable] = None) -> List[
                     w, denoted = verdict
                     bad.append((i, f"{call_txt} {'rejects' if denoted else 'accepts'} {w!r} but the expression "
                                    f"{'denotes' if denoted else 'does not denote'} it", dict(word=w, denoted=denoted)))
+            if got[0] == "ok":
+                st["_nfa"] = nfa        # for the caller's model comparison (not part of the replay)
         elif op == "cmp":
             sig = frozenset(st["input_symbols"])
             e1, e2 = to_ast(st["ast1"]), to_ast(st["ast2"])
@@ -311,6 +317,8 @@ def judge_steps(steps: List[dict], language: Optional[Callable] = None) -> List[
                 txt = "; ".join(f"{n}={r[1]} (languages say {w[1]})" for n, r, w in zip(names, real, want) if r != w)
                 bad.append((i, f"{st['re1']!r} vs {st['re2']!r} over {sorted(sig)}: {txt}", dict(real=real, want=want)))
             st["_real"] = real          # for the caller's model comparison (not part of the replay)
+        elif extra_ops and op in extra_ops:
+            extra_ops[op](st)
         else:
             raise ValueError(op)
     return bad
@@ -328,6 +336,8 @@ def describe(steps: List[dict], i: int) -> str:
             out.append(f"validate({st['re']!r})")
         elif st["op"] == "compile":
             out.append(f"from_regex({st['re']!r}" + ("" if st["input_symbols"] is None else f", {''.join(st['input_symbols'])!r}") + ")")
+        elif st["op"] != "cmp":
+            out.append(f"{st['op']}({st['re']!r})")
         else:
             out.append(f"compare({st['re1']!r}, {st['re2']!r}, {''.join(st['input_symbols'])!r})")
     return " → ".join(out) if out else "no earlier call"
